@@ -76,7 +76,7 @@ def build(job):
         sweep = False
         committed = []
         if head1 != head0:
-            committed = [x[len(pre):] if x.startswith(pre) else "../" + x for x in git(root, "show", "--name-only", "--format=", "HEAD").split("\n") if x]
+            committed = [x[len(pre):] if x.startswith(pre) else "../" + x for x in git(root, "show", "--name-only", "--format=", "-z", "HEAD").replace("\n", "").split("\0") if x]
             for n, _s in pattern_files + [("bumpver.toml", cfg_state)]:
                 old_c = git(root, "show", "%s:%s" % (head0, pre + n), check=False)
                 new_c = git(root, "show", "%s:%s" % (head1, pre + n), check=False)
@@ -91,7 +91,7 @@ def build(job):
             if any(n in committed for n, pat, st in files if not pat and st in (" M", " D", "??")):
                 sweep = True
     paths = [pre + n for n, _s in pattern_files] + [pre + "bumpver.toml"]        # as git names them: relative to the repository root
-    return dict(subdir=bool(subdir), not_committing=bool(subdir and head1 == head0 and r.exit == 0), ev="dirty", tool="git", lines=[glue.cp(ln) for ln in lines], paths=[glue.cp(p) for p in paths], allow=allow, exit=r.exit, changed=before != after if r.exit != 0 else False,
+    return dict(subdir=bool(subdir), not_committing=bool(subdir and head1 == head0 and r.exit == 0), ev="dirty", tool="git", lines=[glue.cp(ln) for ln in lines], paths=[list(p.encode("utf-8")) for p in paths], allow=allow, exit=r.exit, changed=before != after if r.exit != 0 else False,
                 sweep=sweep, committed=committed, exc=r.exc or "", states={n: s for n, _p, s in files},
                 spelled=sorted(set(k for n, k in keys.items() if k != n)),
                 dbg="files=%s cfg=%s allow=%s status=%r -> exit=%s committed=%s" % ([(keys[n], "pattern" if p else "other", s) for n, p, s in files], cfg_state, allow, lines, r.exit, committed))
@@ -99,11 +99,15 @@ def build(job):
 
 def run(ctx):
     drive.setup(hooks=False)
-    res = tlc.run(tlc.module_text("mc/MC_C11.tla"), "INIT Init\nNEXT Next\nINVARIANT NoSweep\nINVARIANT DirtyBlocksUnlessAllowed\nINVARIANT UntrackedOthersInert\nINVARIANT ParseRecovers\nCHECK_DEADLOCK FALSE\n",
+    res = tlc.run(tlc.module_text("mc/MC_C11.tla"), "INIT Init\nNEXT Next\nCONSTANT S22 = FALSE\nINVARIANT NoSweep\nINVARIANT DirtyBlocksUnlessAllowed\nINVARIANT UntrackedOthersInert\nINVARIANT ParseRecovers\nCHECK_DEADLOCK FALSE\n",
                   name="MC_C11", workers=16, timeout=3000)
     ctx.add_design(res, "MC_C11 four files x eleven git states x --allow-dirty (29,282 working trees)")
     if res.violation:
         ctx.violation(dict(clause="design:" + res.violation), case=dict(state=res.trace[-1:]), check="design")
+    # self-test of the invariants: the repaired defect S22 (a quoted path compared as it stands) must be rejected by NoSweep
+    res2 = tlc.run(tlc.module_text("mc/MC_C11.tla"), "INIT Init\nNEXT Next\nCONSTANT S22 = TRUE\nINVARIANT NoSweep\nCHECK_DEADLOCK FALSE\n", name="MC_C11", workers=4, timeout=600)
+    if res2.violation != "NoSweep":
+        raise Machinery("MC_C11 self-test: the quoted-path variant was not rejected (%s)" % (res2.violation or res2.error))
     ctx.exhaustive = True
     rng = random.Random(ctx.seed)
     jobs = []
@@ -118,7 +122,10 @@ def run(ctx):
     for s in STATES:                                      # ... and with a pattern file whose (partial) pattern renders the same text before and after the bump
         for allow in (False, True):
             jobs.append(([("pat.txt", True, "clean"), ("series.txt", True, s), ("other.txt", False, "clean")], allow, len(jobs), "clean"))
-    names = [("pat.txt", True), ("src_p2.py", True), ("other.txt", False), ("M x.txt", False), ("notes.md", False), ("series.txt", True)]
+    for s in STATES:                                      # ... and with a pattern file whose name git prints quoted (a blank, a non-ASCII letter)
+        for allow in (False, True):
+            jobs.append(([("rel notes \u00e9.md", True, s), ("other.txt", False, "clean")], allow, len(jobs), "clean"))
+    names = [("pat.txt", True), ("src_p2.py", True), ("other.txt", False), ("M x.txt", False), ("notes.md", False), ("series.txt", True), ("rel notes \u00e9.md", True), ("caf\u00e9 \"x\".txt", False)]
     spell = {"pat.txt": ["pat.txt", "pat.txt", "./pat.txt", "pat.tx?", ".//pat.txt"], "src_p2.py": ["src_p2.py", "src_p2.py", "./src_p2.py", "src_*.py"]}
     for i in range(ctx.pick(160, 1300)):
         k = rng.randrange(2, len(names) + 1)
@@ -141,8 +148,8 @@ def run(ctx):
         if f["clause"] == "dirty:divergence-refused-although-clean-enough":
             ctx.divergence(f["clause"], e["dbg"])
             continue
-        pat_states = sorted(set(s for n, s in e["states"].items() if n in ("pat.txt", "src_p2.py", "series.txt") and s != "clean"))
-        ctx.violation(dict(clause=f["clause"], allow=e["allow"], pattern_file_states=pat_states, leading_blank=any(s.startswith(" ") for s in pat_states), rename=("R " in pat_states or "RM" in pat_states), partial_pattern_file_dirty=e["states"].get("series.txt", "clean") != "clean", project_in_subdirectory=e["subdir"], respelled_key=bool(e["spelled"])),
+        pat_states = sorted(set(s for n, s in e["states"].items() if n in ("pat.txt", "src_p2.py", "series.txt", "rel notes \u00e9.md") and s != "clean"))
+        ctx.violation(dict(clause=f["clause"], allow=e["allow"], pattern_file_states=pat_states, leading_blank=any(s.startswith(" ") for s in pat_states), rename=("R " in pat_states or "RM" in pat_states), partial_pattern_file_dirty=e["states"].get("series.txt", "clean") != "clean", project_in_subdirectory=e["subdir"], quoted_name_dirty=e["states"].get("rel notes \u00e9.md", "clean") != "clean", respelled_key=bool(e["spelled"])),
                       case=dict(what=e["dbg"], exc=e["exc"][:200]))
     ctx.count("repositories", len(events))
     ctx.count("blocked_runs", sum(1 for e in events if e["exit"] != 0))
@@ -155,4 +162,4 @@ def run(ctx):
                 "non-trivial = distinct working trees")
     for e in events[2:5]:
         ctx.sample(dict(what=e["dbg"]))
-    ctx.assumptions += ["git only (no hg binary): hg's one-letter status format is covered by the spec's parser and by C10's fake hg", "file names without characters git would quote"]
+    ctx.assumptions += ["git only (no hg binary): hg's one-letter status format is covered by the spec's parser and by C10's fake hg", "file names that git quotes in its status output are covered (blank, quote, non-ASCII); names containing ' -> ' are not"]
